@@ -1,6 +1,6 @@
 // C04 implementation driver (planner-level clauses): optimizing planners of /repo under several objectives, solved
 // repeatedly on the same query; every stored solution is re-costed independently.
-//   CRUN <planner> <space> <env> <query> <objective length|integral|work|clearance> <threshold factor|0> <seed> <seconds> <nsolves>
+//   CRUN <planner> <space> <env> <query> <objective length|integral|work|multi|clearance> <threshold factor|0> <seed> <seconds> <nsolves>
 // output per solve:  SOLVE k status nsolutions
 //   SOL i approx diff optimized hasopt stored true length lower satisfied   (costs in 1e-9 units; lower = admissible lower bound of the true cost)
 //   PTS i n dim : reals of every path state (bit patterns)     SC i : stateCost of every path state
@@ -71,9 +71,14 @@ int main(int argc, char **argv)
             if (objn == "length") obj = std::make_shared<ob::PathLengthOptimizationObjective>(w.si);
             else if (objn == "integral") obj = std::make_shared<HeightCost>(w.si);
             else if (objn == "work") obj = std::make_shared<SlopeWork>(w.si);
+            else if (objn == "multi")
+            {   // the weighted multi-objective: 1 x path length + 0.05 x integral of the state cost 1 + 10 y
+                auto mo = std::make_shared<ob::MultiOptimizationObjective>(w.si);
+                mo->addObjective(std::make_shared<ob::PathLengthOptimizationObjective>(w.si), 1.0); mo->addObjective(std::make_shared<HeightCost>(w.si), 0.05); mo->lock(); obj = mo;
+            }
             else { obj = std::make_shared<LoggingClearance>(w.si); kind = 2; }
             double direct = w.space->distance(s0, g0);
-            if (thrf > 0) obj->setCostThreshold(ob::Cost(kind == 2 ? 0.02 * thrf : direct * thrf * (objn == "integral" ? 6.0 : (objn == "work" ? 4.0 : 1.0))));
+            if (thrf > 0) obj->setCostThreshold(ob::Cost(kind == 2 ? 0.02 * thrf : direct * thrf * (objn == "integral" ? 6.0 : (objn == "work" ? 4.0 : (objn == "multi" ? 1.3 : 1.0)))));
             pdef->setOptimizationObjective(obj);
             ob::PlannerPtr planner = make_planner(pl, w.si); planner->setProblemDefinition(pdef); planner->setup();
             for (int k = 0; k < nsolves; ++k)
@@ -86,14 +91,14 @@ int main(int argc, char **argv)
                 {
                     auto &s = sols[i]; auto *pg = dynamic_cast<og::PathGeometric *>(s.path_.get()); if (!pg) continue;
                     double truec = pg->cost(obj).value(), len = pg->length();
-                    double lower = (objn == "length" && pg->getStateCount() > 0) ? w.space->distance(pg->getState(0), pg->getState(pg->getStateCount() - 1)) : (objn == "integral" ? len * 1.0 : ((objn == "work" && pg->getStateCount() > 0) ? std::max(obj->stateCost(pg->getState(pg->getStateCount() - 1)).value() - obj->stateCost(pg->getState(0)).value(), 0.0) + 0.05 * w.space->distance(pg->getState(0), pg->getState(pg->getStateCount() - 1)) : -1e9));
+                    double lower = (objn == "length" && pg->getStateCount() > 0) ? w.space->distance(pg->getState(0), pg->getState(pg->getStateCount() - 1)) : (objn == "integral" ? len * 1.0 : objn == "multi" ? len * 1.05 : ((objn == "work" && pg->getStateCount() > 0) ? std::max(obj->stateCost(pg->getState(pg->getStateCount() - 1)).value() - obj->stateCost(pg->getState(0)).value(), 0.0) + 0.05 * w.space->distance(pg->getState(0), pg->getState(pg->getStateCount() - 1)) : -1e9));
                     bool hasopt = static_cast<bool>(s.opt_);
                     std::cout << "SOL " << i << " " << (s.approximate_ ? 1 : 0) << " " << e9(s.difference_) << " " << (s.optimized_ ? 1 : 0) << " " << (hasopt ? 1 : 0) << " " << e9(hasopt ? s.cost_.value() : 0.0)
                               << " " << e9(truec) << " " << e9(len) << " " << e9(lower) << " " << ((hasopt && obj->isSatisfied(s.cost_)) ? 1 : 0) << " " << s.plannerName_ << "\n";
                     // the path itself, for the independent re-computation of its cost by the model
                     std::vector<double> r; std::cout << "PTS " << i << " " << pg->getStateCount() << " " << w.space->getDimension() << " :";
                     for (std::size_t k2 = 0; k2 < pg->getStateCount(); ++k2) { w.space->copyToReals(r, pg->getState(k2)); for (double v : r) pbits(std::cout, v); }
-                    std::cout << "\nSC " << i << " :"; for (std::size_t k2 = 0; k2 < pg->getStateCount(); ++k2) pbits(std::cout, obj->stateCost(pg->getState(k2)).value());
+                    std::cout << "\nSC " << i << " :"; for (std::size_t k2 = 0; k2 < pg->getStateCount(); ++k2) pbits(std::cout, objn == "multi" ? HeightCost(w.si).stateCost(pg->getState(k2)).value() : obj->stateCost(pg->getState(k2)).value());
                     std::cout << "\n";
                     if (kind == 2)
                     {
